@@ -760,7 +760,11 @@ impl<'a> ProgGen<'a> {
                 5 => format!("({} {} {})", self.typed("bool", depth + 1), ps(self.rng, &["&&", "||", "=="]), self.typed("bool", depth + 1)),
                 6 => format!("({} is {})", self.typed("option[int]", depth + 1), ps(self.rng, &["Some", "None"])),
                 7 if !self.facts.is_empty() => format!("exists {}", self.fact_literal(depth, true)),
-                8 if !self.facts.is_empty() => format!("{} {} {}", ps(self.rng, &["at_least", "at_most", "exactly"]), self.rng.range(1, 3), self.fact_literal(depth, true)),
+                8 if !self.facts.is_empty() => {
+                    // boundary limits now and then (the counters add one to the limit)
+                    let lim = if self.rng.chance(1, 6) { ps(self.rng, &["9223372036854775807", "9223372036854775806", "4294967296"]).to_string() } else { self.rng.range(1, 3).to_string() };
+                    format!("{} {} {}", ps(self.rng, &["at_least", "at_most", "exactly"]), lim, self.fact_literal(depth, true))
+                }
                 9 => format!("({} == {})", self.typed("string", depth + 1), self.typed("string", depth + 1)),
                 _ => self.call_returning("bool", depth).unwrap_or_else(|| "true".into()),
             },
